@@ -56,6 +56,8 @@ func loadCorpus() []corpusFile {
 var dict = []string{
 	"{", "}", "{", "}", "*", "/", "/a", "/a*", "/api/*", "@m", "@m", "\"", "`", "\\", "#", "<<EOF", "EOF",
 	"import", "import x", "import *", "import Caddyfile", "import s a b", "import ../inc/ok", "import ../inc/a", "import ../inc/self", "import ../inc/snip", "import incsnip", "import ../inc/*", "(s)", "{args[0]}", "{args[:]}", "{args[1:]}", "{block}", "{blocks.a}",
+	"{args[5]}", "{args[-1]}", "{args[1:0]}", "{args[x]}", "{args[99999999999999999999]}", "{args.0}", "{args.9}", "{args[0:]}", "{args[:1]}", "{blocks.x}", "import s {args[:]}",
+	"http://:80", "https://", ":", "::", "[::]:80", "a.test:99999", "a.test:-1", "*.", "*.*.a.test", "http://a.test:443", "a.test:http", "unix//x", "a.test:80-81", "{$C16_ENV}:80", "http://a.test, https://a.test",
 	"{$C16_ENV}", "{$C16_UNSET}", "{$C16_UNSET:dflt}", "{env.X}", "{http.request.uri}", "{path}", "{",
 	"respond", "handle", "handle_path", "handle_errors", "route", "redir", "rewrite", "uri", "root", "file_server", "reverse_proxy",
 	"php_fastcgi", "header", "request_header", "encode", "templates", "log", "tls", "bind", "vars", "map", "method", "try_files",
